@@ -126,8 +126,8 @@ def runDrive (s : St) : String :=
             let err := hasErr canon.root && hasErr t.root
             -- UTF-16BE with a supplementary-plane character: U16_NEXT_BE does not byte-swap the trail unit
             let supp := s.doc.toList.any (· ≥ 0xF0)
-            let cause := if s.kind == "utf16" && s.param.startsWith "u16be" && supp then "utf16be-surrogate-pair"
-              else if s.kind == "utf16" && err then "utf16-error-recovery"
+            let cause := if s.kind == "utf16" && err then "utf16-error-recovery"
+              else if s.kind == "utf16" && s.param.startsWith "u16be" && supp then "utf16be-surrogate-pair"
               else if s.kind == "cancel-resume" && err then "resume-error-recovery"
               else if s.kind == "cancel-resume" && sameModuloStates canon.root t.root then "resume-token-parse-state"
               else "other"
